@@ -21,7 +21,7 @@ RULE = ('(a) the whole option table of TCPHiddenServiceEndpoint (ephemeral not g
         'reactor whose listenTCP hands out a recording listening port: ephemeral (no auth, basic auth), filesystem (explicit and implicit '
         'directory), versions 2/3, with and without a key, with and without a requested local_port (the port actually bound is what must be forwarded to), x a failure injected at each step: configuration Deferred fails, yields a non-config, '
         'configuration bootstrap fails, local bind fails, ADD_ONION / SETCONF rejected, every descriptor upload failed, connection lost during the '
-        'wait — and no failure; for plain ephemeral services also with another service\'s descriptor events arriving while the ADD_ONION is unanswered; the connection loss also with an unrelated command outstanding. Observed in order: listeners bound (interface, port), the forwarding Tor is asked for, listeners closed, the '
+        'wait — and no failure; for plain ephemeral services also with another service\'s descriptor events arriving while the ADD_ONION is unanswered; the connection loss also with an unrelated command outstanding; for filesystem services also with the upload reports (or failures) arriving before the SETCONF is answered, and with another filesystem service of the same Tor already listening in a directory whose path contains / is contained in / lies inside its own. Observed in order: listeners bound (interface, port), the forwarding Tor is asked for, listeners closed, the '
         'result (address: onion host and public port; stopListening closes the listener), whether it came before the upload was confirmed. Both '
         'tiers enumerate the product. non-trivial = a listen case; distinct = cases')
 TRUSTED = ["PARTIAL: a recording listening port stands in for sockets; the fake Tor's ADD_ONION reply / HS_DESC events; hostname files written by the "
@@ -198,6 +198,7 @@ def run_listen(c):
     made_dirs = []
     # what Tor is asked to forward, in the order of events
     orig_on_command = st._on_command
+    said_before = []
 
     def on_command(line):
         w = line.split(' ', 1)[0]
@@ -206,17 +207,48 @@ def run_listen(c):
             if m:
                 events.append('create:%s:%s:%s' % m.groups())
         elif w == 'SETCONF' and 'HiddenServicePort' in line:
+            # (a SETCONF of the onion-service options states all of Tor's filesystem services: what an earlier one already said is
+            # no new request)
+            now = []
             for k, v in kv_parse(line.split(' ', 1)[1]):
                 if k == 'HiddenServicePort':
                     pub, tgt = v.split(' ')
                     host, port = tgt.rsplit(':', 1)
-                    events.append('create:%s:%s:%s' % (pub, host, port))
+                    now.append('create:%s:%s:%s' % (pub, host, port))
+            before = list(said_before)
+            for e in now:
+                if e in before:
+                    before.remove(e)
+                else:
+                    events.append(e)
+            said_before[:] = now
         return orig_on_command(line)
     st._on_command = on_command
     try:
         if c['kind'] == 'fs-explicit':
             hsdir = tempfile.mkdtemp(prefix='c17dir')
             made_dirs.append(hsdir)
+        sibling_result = []
+        if c.get('sibling'):
+            # another filesystem service of the same Tor, in a directory whose path contains (or is contained in) this one's, is
+            # already listening: the two are different services
+            parent = hsdir
+            hsdir = os.path.join(parent, 'web')
+            sib = os.path.join(parent, {'longer': 'web-staging', 'shorter': 'we', 'inside': 'web/inner'}[c['sibling']])
+            os.makedirs(sib, exist_ok=True)
+            with open(os.path.join(sib, 'hostname'), 'w') as f:
+                f.write('sibling0123456789.onion\n')
+            with open(os.path.join(sib, 'private_key'), 'w') as f:
+                f.write('key\n')
+            ep_s = TCPHiddenServiceEndpoint(reactor, cfg, 8080, hidden_service_dir=sib, version=c['version'])
+            ep_s.listen(Factory.forProtocol(Protocol)).addCallbacks(lambda p: sibling_result.append(p), lambda f: sibling_result.append(f))
+            for d in ('$%040X' % i for i in (1, 2)):
+                st.event('HS_DESC UPLOAD sibling0123456789 UNKNOWN %s descid' % d)
+                st.event('HS_DESC UPLOADED sibling0123456789 UNKNOWN %s' % d)
+            if not sibling_result or isinstance(sibling_result[0], Failure):
+                raise RuntimeError('the sibling service did not come up')
+            events.append('ok:%d' % sibling_result[0].getHost().onion_port)
+            events.append('second')
         config = cfg
         if fail == 'config':
             config = defer.fail(Failure(RuntimeError('no tor')))
@@ -263,7 +295,27 @@ def run_listen(c):
         result = []
         if c.get('foreign_first'):
             st.hold_prefixes.add('ADD_ONION')
+        if c.get('events_first'):
+            st.hold_prefixes.add('SETCONF')
+        if c.get('app_listens'):
+            # the application follows HS_DESC events itself (so the endpoint's own interest starts and ends without a SETEVENTS)
+            st.proto.add_event_listener('HS_DESC', lambda text: None)
         ep.listen(Factory.forProtocol(Protocol)).addCallbacks(lambda p: result.append(p), lambda f: result.append(f))
+        before_reply = False
+        if c.get('events_first'):
+            # Tor reports the descriptor uploads (or their failure) before it answers the SETCONF that created the service
+            before_reply = bool(result) and not isinstance(result[0], Failure)
+            dirs = ['$%040X' % i for i in (1, 2)]
+            for d in dirs:
+                st.event('HS_DESC UPLOAD %s UNKNOWN %s descid' % (HOST_FS[:-6], d))
+            for d in dirs:
+                if fail == 'uploads':
+                    st.event('HS_DESC FAILED %s UNKNOWN %s REASON=UPLOAD_REJECTED' % (HOST_FS[:-6], d))
+                else:
+                    st.event('HS_DESC UPLOADED %s UNKNOWN %s' % (HOST_FS[:-6], d))
+            before_reply = before_reply or (bool(result) and not isinstance(result[0], Failure))
+            st.hold_prefixes.discard('SETCONF')
+            st.release('SETCONF')
         if c.get('foreign_first'):
             # another service's descriptor is uploaded while our ADD_ONION is unanswered: it says nothing about ours
             for d in ('$%040X' % i for i in (1, 2)):
@@ -271,7 +323,7 @@ def run_listen(c):
                 st.event('HS_DESC UPLOADED otherservice0001 UNKNOWN %s' % d)
             st.hold_prefixes.discard('ADD_ONION')
             st.release('ADD_ONION')
-        early = bool(result) and not isinstance(result[0], Failure) and fail in ('none', 'uploads', 'disconnect')
+        early = (bool(result) and not isinstance(result[0], Failure) and fail in ('none', 'uploads', 'disconnect') and not c.get('events_first')) or before_reply
         # the descriptor wait
         sid = (st.service_ids[-1] if st.service_ids else None) if c['kind'].startswith('eph') else HOST_FS[:-6]
         if sid and not result:
@@ -291,7 +343,7 @@ def run_listen(c):
                     else:
                         st.event('HS_DESC UPLOADED %s UNKNOWN %s' % (sid, d))
         extra = {}
-        bound_now = BOUND
+        bound_now = BOUND + (1 if c.get('sibling') else 0)
         if c.get('retry') and result and isinstance(result[0], Failure):
             # the application tries again on the same endpoint object; this time Tor accepts and the uploads succeed
             events.append('fail')
@@ -355,6 +407,8 @@ def driver_line(c):
 
 
 def driver_lines(c):
+    if c.get('sibling'):
+        return ['listen 8080 %d none' % BOUND, 'listen %d %d %s' % (c['public'], BOUND + 1, FAIL_MODEL[c['fail']])]
     ls = [driver_line(c)]
     if c.get('retry'):
         ls.append('listen %d %d none' % (c['public'], BOUND + 1))      # a retry is another listen(), on a fresh local port
@@ -372,6 +426,11 @@ def spec_for(c):
         return {'refused': bool(invalid), 'settled': None if invalid else 'ok:%d:%s' % (1 if eph else 0, auth), 'started': False}
     f = c['fail']
     lo = '127.0.0.1'
+    if f == 'none' and c.get('sibling'):
+        b2 = BOUND + 1
+        return {'events': ['bound:%s:%d' % (lo, BOUND), 'create:8080:%s:%d' % (lo, BOUND), 'ok:8080', 'second',
+                           'bound:%s:%d' % (lo, b2), 'create:%d:%s:%d' % (c['public'], lo, b2), 'ok:%d' % c['public']], 'open': [b2], 'early': False,
+                'extra': {'host_ok': True, 'stop_closes': True}}
     if f == 'none' and c.get('relisten'):
         b2 = BOUND + 1
         return {'events': ['bound:%s:%d' % (lo, BOUND), 'create:%d:%s:%d' % (c['public'], lo, BOUND), 'ok:%d' % c['public'], 'closed:%d' % BOUND, 'relisten',
@@ -416,6 +475,11 @@ def run_cases(cases, drv, tier):
                 ev1, op1 = raw[i].split(' open=')
                 ev2, op2 = raw[i + 1].split(' open=')
                 o = ev1 + ';closed:%d;relisten;' % BOUND + ev2 + ' open=' + op2
+            if c.get('sibling'):
+                # two services, two listen() calls: independent of each other
+                ev1, op1 = raw[i].split(' open=')
+                ev2, op2 = raw[i + 1].split(' open=')
+                o = ev1 + ';second;' + ev2 + ' open=' + op2
             outs.append(o)
     res = []
     for k, c in enumerate(cases):
@@ -498,6 +562,18 @@ def gen_cases(rng, tier):
         if kind == 'eph' and fail in ('none', 'uploads') and local_port is None:
             yield {'api': 'listen', 'kind': kind, 'version': version, 'key': key, 'fail': fail, 'public': public, 'local_port': local_port,
                    'foreign_first': True}
+        if kind.startswith('fs') and fail in ('none', 'uploads') and local_port is None:
+            # Tor reports the uploads (or their failure) before it answers the SETCONF
+            yield {'api': 'listen', 'kind': kind, 'version': version, 'key': key, 'fail': fail, 'public': public, 'local_port': local_port,
+                   'events_first': True}
+            yield {'api': 'listen', 'kind': kind, 'version': version, 'key': key, 'fail': fail, 'public': public, 'local_port': local_port,
+                   'events_first': True, 'app_listens': True}
+            yield {'api': 'listen', 'kind': kind, 'version': version, 'key': key, 'fail': fail, 'public': public, 'local_port': local_port,
+                   'app_listens': True}
+        if kind == 'fs-explicit' and fail == 'none' and local_port is None:
+            for sib in ('longer', 'shorter', 'inside'):
+                yield {'api': 'listen', 'kind': kind, 'version': version, 'key': key, 'fail': fail, 'public': public, 'local_port': local_port,
+                       'sibling': sib}
 
 
 def classify(r):
